@@ -24,7 +24,8 @@ def s_lin(draw):
     return {"which": draw(st.sampled_from(["lpf", "bpf"])), "N": n, "order": draw(st.integers(1, 8)), "cut": draw(st.floats(0.0101, 0.4499)),
             "gv": draw(s_gv(sps_max=64)), "npol": draw(st.sampled_from([1, 2])), "noise": draw(st.booleans()), "seed": draw(st.integers(0, 2 ** 31 - 1)),
             "a": [draw(st.floats(-3, 3)), draw(st.floats(-3, 3))], "b": [draw(st.floats(-3, 3)), draw(st.floats(-3, 3))],
-            "const": [draw(st.floats(-5, 5)), draw(st.floats(-5, 5))], "fs_arg": draw(st.booleans()), "default_order": draw(st.booleans())}
+            "const": [draw(st.floats(-5, 5)), draw(st.floats(-5, 5))], "fs_arg": draw(st.booleans()), "default_order": draw(st.booleans()),
+            "scale": draw(st.sampled_from([1.0, 1.0, 1e-9, 1e6, 1e-3])), "intrec": draw(st.booleans())}
 
 
 def relerr(a, b):
@@ -42,9 +43,10 @@ def e_lin(c):
     okw = {} if c["default_order"] else {"n": order}
     if c["default_order"]:
         order = 4
+    sc = c.get("scale", 1.0)
     if lpf:
-        x1, x2 = rs.standard_normal(N), rs.standard_normal(N)
-        nz = rs.standard_normal(N) if c["noise"] else None
+        x1, x2 = rs.standard_normal(N) * sc, rs.standard_normal(N) * sc
+        nz = rs.standard_normal(N) * sc * 1e-3 if c["noise"] else None
         a, b = c["a"][0], c["b"][0]
         F = lambda v: lib(D.LPF, electrical_signal(v), BW, **okw)  # noqa: E731
         X = electrical_signal(x1.copy(), None if nz is None else nz.copy())
@@ -71,10 +73,14 @@ def e_lin(c):
             gv(sps=sps, fs=fs)
         lin = F(a * x1 + b * x2).signal
         ref = a * F(x1).signal + b * F(x2).signal
-        check(relerr(lin, ref) <= 1e-9 or np.max(np.abs(lin - ref)) <= 1e-12, "lpf-not-linear", f"rel err {relerr(lin, ref):.2e}")
-        k0 = c["const"][0]
+        check(relerr(lin, ref) <= 1e-9, "lpf-not-linear", f"rel err {relerr(lin, ref):.2e}")
+        k0 = c["const"][0] * sc
         yc = F(np.full(N, k0)).signal
-        check(np.max(np.abs(yc - k0)) <= 1e-9 * max(1.0, abs(k0)), "lpf-constant-not-passed", f"const {k0}: max dev {np.max(np.abs(yc - k0)):.2e}")
+        check(np.max(np.abs(yc - k0)) <= 1e-9 * abs(k0) + 1e-300, "lpf-constant-not-passed", f"const {k0}: max dev {np.max(np.abs(yc - k0)):.2e}")
+        if c.get("intrec"):
+            xi = rs.randint(-50, 51, N)                      # an integer-valued record (ADC codes, bit patterns) given as an int ndarray
+            yi = lib(D.LPF, xi.copy(), BW, **okw)
+            check(relerr(yi.signal, F(xi.astype(float)).signal) <= 1e-12, "lpf-int-record-filtered-differently", f"rel err {relerr(yi.signal, F(xi.astype(float)).signal):.2e}")
         g.verify()
         g.no_alias([("LPF.signal", Y.signal), ("LPF.noise", Y.noise)])
         g.release()
@@ -84,7 +90,7 @@ def e_lin(c):
     else:
         npol = c["npol"]
         shape = (N,) if npol == 1 else (2, N)
-        cg = lambda: rs.standard_normal(shape) + 1j * rs.standard_normal(shape)  # noqa: E731
+        cg = lambda: (rs.standard_normal(shape) + 1j * rs.standard_normal(shape)) * sc  # noqa: E731
         x1, x2 = cg(), cg()
         nz = cg() if c["noise"] else None
         a, b = complex(*c["a"]), complex(*c["b"])
@@ -101,13 +107,13 @@ def e_lin(c):
         if npol == 2:
             for i in (0, 1):
                 yi = lib(D.BPF, optical_signal(x1[i].copy()), BW, **okw)
-                check(np.allclose(yi.signal, Y.signal[i], rtol=1e-12, atol=1e-12), "bpf-polarisations-not-independent", f"row {i}")
+                check(relerr(yi.signal, Y.signal[i]) <= 1e-12, "bpf-polarisations-not-independent", f"row {i}")
         lin = F(a * x1 + b * x2).signal
         ref = a * F(x1).signal + b * F(x2).signal
-        check(relerr(lin, ref) <= 1e-9 or np.max(np.abs(lin - ref)) <= 1e-12, "bpf-not-linear", f"rel err {relerr(lin, ref):.2e}")
-        k0 = complex(*c["const"])
+        check(relerr(lin, ref) <= 1e-9, "bpf-not-linear", f"rel err {relerr(lin, ref):.2e}")
+        k0 = complex(*c["const"]) * sc
         yc = F(np.full(shape, k0)).signal
-        check(np.max(np.abs(yc - k0)) <= 1e-9 * max(1.0, abs(k0)), "bpf-constant-not-passed", f"max dev {np.max(np.abs(yc - k0)):.2e}")
+        check(np.max(np.abs(yc - k0)) <= 1e-9 * abs(k0) + 1e-300, "bpf-constant-not-passed", f"max dev {np.max(np.abs(yc - k0)):.2e}")
         g.verify()
         g.no_alias([("BPF.signal", Y.signal), ("BPF.noise", Y.noise)])
         g.release()
